@@ -18,6 +18,8 @@ static struct {
     long tests_ready, tests_notready, waits_blocked_first, tasklet_refusals;
 } S;
 
+#define BIGV 70016
+static unsigned char big_value[MAXA][BIGV]; /* one source buffer per setter */
 static void check_value(void *buf, int r, const char *api, int id)
 {
     if (S.nbytes == 0) {
@@ -26,6 +28,15 @@ static void check_value(void *buf, int r, const char *api, int id)
     }
     SIM_CHECK(buf != NULL, "eventual:value", "%s returned no buffer", api);
     uint64_t v = *(volatile uint64_t *)buf;
+    if (S.nbytes > 8) {
+        /* a large value: the same word at both ends and the setter's byte in between */
+        uint64_t tail;
+        memcpy(&tail, (char *)buf + S.nbytes - 8, 8);
+        SIM_CHECK(tail == v, "eventual:value", "%s by actor %d: the %d-byte value starts with %#lx and ends with %#lx", api, id, S.nbytes, (unsigned long)v, (unsigned long)tail);
+        unsigned char mid = ((unsigned char *)buf)[S.nbytes / 2];
+        SIM_CHECK(mid == (unsigned char)(v & 0xff), "eventual:value", "%s by actor %d: byte %d of the %d-byte value is %#x, set: %#x", api, id, S.nbytes / 2, S.nbytes, mid,
+                  (unsigned)(v & 0xff));
+    }
     /* the value of the successful set of this round (its setter recorded it before returning);
      * with racing setters the winner may not have recorded yet: then any setter's value of
      * this round is acceptable, but never a value of another round or garbage */
@@ -69,7 +80,15 @@ static void ev_body(wl_actor *a)
             case E_SET: {
                 uint64_t v = ((0xe00000ULL | (uint64_t)r) << 8) | (uint64_t)(a->id + 1);
                 S.set_invoked[r] = 1;
-                int rc = ABT_eventual_set(S.ev, S.nbytes ? &v : NULL, S.nbytes);
+                void *src = &v;
+                if (S.nbytes > 8) {
+                    unsigned char *b = big_value[a->id];
+                    memset(b, (int)(v & 0xff), (size_t)S.nbytes);
+                    memcpy(b, &v, 8);
+                    memcpy(b + S.nbytes - 8, &v, 8);
+                    src = b;
+                }
+                int rc = ABT_eventual_set(S.ev, S.nbytes ? src : NULL, S.nbytes);
                 if (rc == ABT_SUCCESS) {
                     S.set_ok[r]++;
                     S.winner_val[r] = v;
@@ -114,6 +133,11 @@ static void run_c09_eventual(void)
     wl_rt *rt = &S.rt;
     wl_rt_start(rt, WL_RT_NO_TOPO2);
     S.nbytes = plan_bool() ? 8 : 0;
+    if (plan_n(16) == 0) {
+        /* the value is an array of bytes of any length */
+        static const int big[] = { 24, 4096, 65535 + 9, 65536, 65536 + 8, 70000 };
+        S.nbytes = big[plan_n(6)];
+    }
     ABT_OK(ABT_eventual_create(S.nbytes, &S.ev));
     int n = plan_range(2, sim_limit("actors", 6));
     S.nA = n;
@@ -559,3 +583,98 @@ static void run_c09_handoff(void)
     wl_rt_stop(rt);
 }
 SIM_WORKLOAD("C09", "waiter-frees", run_c09_handoff, 4)
+
+/* ---- scenario "many-compartments": a future with K compartments filled by one setter, one value
+ * after the other; a waiter and a tester look on.  Nobody sees it ready before the K-th set; the
+ * callback receives the K values in the order of the sets; a (K+1)-th set fails.  K is mostly
+ * small; now and then it sits on 2^8 / 2^16 or just around it. ---- */
+static struct {
+    wl_rt rt;
+    ABT_future fut;
+    long k;
+    volatile long sets_done;
+    volatile int cb_calls, cb_bad, waiter_done;
+    wl_actor A[3];
+} MC;
+static void mc_cb(void **args)
+{
+    MC.cb_calls++;
+    for (long i = 0; i < MC.k; i++)
+        if (args[i] != (void *)(uintptr_t)(i + 1))
+            MC.cb_bad = 1;
+    if (MC.sets_done != MC.k - 1) /* (the K-th set is in progress) */
+        MC.cb_bad = 2;
+}
+static void mc_setter(wl_actor *a)
+{
+    for (long i = 0; i < MC.k; i++) {
+        int rc = ABT_future_set(MC.fut, (void *)(uintptr_t)(i + 1));
+        SIM_CHECK(rc == ABT_SUCCESS, "future:set-count", "set #%ld of %ld returned %d", i + 1, MC.k, rc);
+        MC.sets_done = i + 1;
+        if ((i & 255) == 0)
+            sim_progress();
+        if ((a->args[0] & 1) && i < 8)
+            wl_actor_pause(a, 1);
+    }
+    int rc = ABT_future_set(MC.fut, (void *)(uintptr_t)0x99);
+    SIM_CHECK(rc == ABT_ERR_FUTURE, "future:set-count", "set #%ld of a future with %ld compartments returned %d, documented: ABT_ERR_FUTURE (%d)", MC.k + 1, MC.k, rc, ABT_ERR_FUTURE);
+    sim_progress();
+}
+static void mc_waiter(wl_actor *a)
+{
+    (void)a;
+    ABT_OK(ABT_future_wait(MC.fut));
+    SIM_CHECK(MC.sets_done >= MC.k - 1 && MC.cb_calls == 1, "future:wait-before-ready", "ABT_future_wait returned after %ld of %ld sets (callback ran %d times)", MC.sets_done, MC.k,
+              MC.cb_calls);
+    MC.waiter_done = 1;
+    sim_progress();
+}
+static void mc_tester(wl_actor *a)
+{
+    while (!MC.waiter_done) {
+        ABT_bool ready = ABT_FALSE;
+        long before = MC.sets_done;
+        ABT_OK(ABT_future_test(MC.fut, &ready));
+        if (ready)
+            SIM_CHECK(MC.sets_done >= MC.k - 1 && MC.cb_calls == 1, "future:ready-before-sets", "ABT_future_test reported ready after %ld of %ld sets", MC.sets_done, MC.k);
+        (void)before;
+        wl_actor_pause(a, 1);
+        sim_progress();
+    }
+}
+static void mc_diag(char *buf, int sz)
+{
+    int k = snprintf(buf, (size_t)sz, "many-compartments k=%ld sets=%ld cb=%d ", MC.k, MC.sets_done, MC.cb_calls);
+    wl_actors_diag(MC.A, 3, buf + k, sz - k);
+}
+static void run_c09_many(void)
+{
+    memset(&MC, 0, sizeof MC);
+    sim_set_diag_cb(mc_diag);
+    wl_rt *rt = &MC.rt;
+    wl_rt_start(rt, WL_RT_NO_TOPO2);
+    static const long edges[] = { 255, 256, 257, 65535, 65536, 65537, 70000 };
+    int deep = plan_n(sim_tier() ? 150 : !strcmp(sim_variant(), "VP") ? 6000 : 700) == 0;
+    MC.k = deep ? edges[plan_n(7)] : plan_range(1, 40);
+    ABT_OK(ABT_future_create((uint32_t)MC.k, mc_cb, &MC.fut));
+    sim_note("C09 many-compartments K=%ld: ", MC.k);
+    for (int i = 0; i < 3; i++) {
+        wl_actor *a = &MC.A[i];
+        a->id = i;
+        a->kind = plan_n(3) == 0 ? AK_EXT : AK_ULT;
+        a->pool = (int)plan_n((uint32_t)rt->npools);
+        a->body = i == 0 ? mc_setter : i == 1 ? mc_waiter : mc_tester;
+        a->args[0] = (int)plan_n(8);
+        sim_note("%s@%d ", wl_actor_kind_names[a->kind], a->pool);
+    }
+    wl_actors_spawn(rt, MC.A, 3);
+    wl_actors_join(rt, MC.A, 3);
+    SIM_CHECK(MC.cb_calls == 1 && MC.cb_bad == 0, "future:callback", "the callback of a future with %ld compartments ran %d times%s", MC.k, MC.cb_calls,
+              MC.cb_bad == 1 ? " and did not receive the values in the order of the sets" : MC.cb_bad == 2 ? ", not during the last set" : "");
+    if (MC.k >= 65536)
+        sim_count("c09.runs_with_2^16_compartments", 1);
+    sim_count("c09.compartments_of_one_future", (uint64_t)MC.k);
+    ABT_OK(ABT_future_free(&MC.fut));
+    wl_rt_stop(rt);
+}
+SIM_WORKLOAD("C09", "many-compartments", run_c09_many, 1)
